@@ -210,7 +210,7 @@ def recognition(ctx):
     for (cob, ident, exp) in ((0x80, 0x80, True), (0x80 | ON, 0x80, True), (0x80, 0x81, False), (0x180, 0x80, False),
                               (0x80 | ON, 0x80 | ON, False)):
         inputs = {'frm->Identifier': ident, 'sync->CobId': cob}
-        for i in range(4):
+        for i in range(m.extent('CO_SYNC', 'TPdo')):
             inputs['sync->TPdo[%d]' % i] = 0
         trs = _run(m, f, inputs)
         got = set((t.ret is not None and t.ret >= 0) for t in trs)
